@@ -174,9 +174,13 @@ class CaseLog:
     def run_fallback(self, why, npoints=4):
         for key, replay, sampler in self._replays[:6]:
             for _ in range(npoints):
-                p = sampler(self.rng)
-                script = replay_script(replay[0], replay[1], p, **(replay[2] if len(replay) > 2 else {}))
-                rc, out = run_script(script)
+                try:
+                    p = sampler(self.rng)
+                    script = replay_script(replay[0], replay[1], p, **(replay[2] if len(replay) > 2 else {}))
+                    rc, out = run_script(script)
+                except Exception as e:  # a broken sampler must not take the whole check down
+                    self.notes.append("fall-back replay for %s could not run: %s: %s" % (key, type(e).__name__, e))
+                    break
                 if rc == 1:
                     self.violations.append({"key": key, "what": "numeric fall-back after: %s" % why[:200], "case": self.case,
                                             "detail": out.strip()[-600:], "point": {k: str(v) for k, v in p.items()}, "script": script})
